@@ -268,7 +268,7 @@ class Square(Contract):
 class PlusConst(Contract):
     file = 'algopy/utpm/algorithms.py'; qual = '_plus_const'
     arrays = ('x_data', 'out'); scalars = {'c': 'real'}; modifies = ('out',); returns = 'out'
-    cfgs = {'out_none': {'out': None}, 'distinct': {}}
+    cfgs = {'out_none': {'out': None}, 'distinct': {}, 'out_is_x': {'alias': {'out': 'x_data'}}}
     property_ids = ('C01', 'C02', 'C12')
     def ensures(self, c):
         cc = scalar_of(c, 'c'); ct = toR(cc.t)
